@@ -1,0 +1,19 @@
+//go:build verif
+
+// Contracts for package cache, read by /verif/govc (comment lines starting with //@).
+
+package cache
+
+// get-or-compute (C18): a live entry is returned without calling cb; otherwise cb is called exactly once, its result is
+// returned as is, a success is stored under the key and a failure leaves the cache exactly as it was.
+//@ func GetWithExpiration
+//@ inline
+//@ safety C18
+//@ requires[pre.cb]          cb != nil
+//@ requires[pre.cache.type]  cached(key) ==> cachedAs(key, T)
+//@ ensures[C18.cache.hit]    old(cached(key)) ==> calls(cb) == old(calls(cb)) && ret1 == nil && ret0 == old(cachedval(key, T))
+//@ ensures[C18.cache.miss]   !old(cached(key)) ==> calls(cb) == old(calls(cb)) + 1 && ret0 == lastret(cb, 0) && ret1 == lastret(cb, 1)
+//@ ensures[C18.cache.store]  !old(cached(key)) && ret1 == nil ==> cached(key) && cachedAs(key, T) && cachedval(key, T) == ret0
+//@ ensures[C18.cache.nofail] ret1 != nil ==> ghost(cache.has) == old(ghost(cache.has)) && ghost(cache.tag) == old(ghost(cache.tag)) && ghost(cache.ref) == old(ghost(cache.ref)) && ghost(cache.exp) == old(ghost(cache.exp))
+//@ ensures[C18.cache.others] forallstr(k, k != key ==> selb(ghost(cache.has), k) == old(selb(ghost(cache.has), k)) && sel(ghost(cache.ref), k) == old(sel(ghost(cache.ref), k)) && sel(ghost(cache.exp), k) == old(sel(ghost(cache.exp), k)))
+//@ modifies *, ghost clock, ghost cache.has, ghost cache.tag, ghost cache.ref, ghost cache.exp
